@@ -393,10 +393,6 @@ theorem sem_body (copies : List Formula) (ρ : FEnv) (σ : Asg) :
     · intro h'
       exact ⟨fun f hf => h' f (Or.inl hf), h' last (Or.inr rfl)⟩
 
-theorem trueCount_map (vs : List Nat) (f : Nat → Nat) (σ : Asg) :
-    trueCount (vs.map f) σ = (vs.filter (fun v => σ (f v))).length := by
-  simp [trueCount, List.filter_map, Function.comp_def]
-
 theorem filter_length_congr {vs : List Nat} {p q : Nat → Bool} (h : ∀ v ∈ vs, p v = q v) :
     (vs.filter p).length = (vs.filter q).length := by
   rw [List.filter_congr h]
